@@ -142,6 +142,7 @@ class Interp:
         self.rte_count = 0
         self.trace = []          # ghost trace of selected events (samples, poisson calls...)
         self.effects = {"reads": set(), "writes": set(), "externals": set()}
+        self.generators = []
 
     # ------------------------------------------------------------------ helpers
     def fresh(self, base, kind):
@@ -272,6 +273,9 @@ class Interp:
                 continue
             init = d.get("inner", [])
             t = d["type"]["qualType"]
+            if d.get("storageClass") == "static":
+                # a function-local static keeps state between calls: outside the model (treated as a fresh local) -> flagged
+                self.effects["externals"].add("static-local:" + str(d.get("name")))
             if init and init[0].get("kind"):
                 v = self.ev(init[0], fr)
                 k = kind_of_type(t)
@@ -725,7 +729,14 @@ class Interp:
         if did in fr.locals:
             return Ref(lambda: fr.locals[did], lambda v: fr.locals.__setitem__(did, v))
         if name in self.globals:
-            return Ref(lambda: self.globals[name], lambda v: self.globals.__setitem__(name, v))
+            def gget():
+                self.effects["reads"].add(("g", name))
+                return self.globals[name]
+
+            def gset(v):
+                self.effects["writes"].add(("g", name))
+                self.globals[name] = v
+            return Ref(gget, gset)
         raise Unsupported("unbound name %s at %s" % (name, self.where(n, fr)))
 
     def e_DeclRefExpr(self, n, fr):
@@ -751,7 +762,14 @@ class Interp:
             raise Unsupported("member of non-object at %s" % self.where(n, fr))
         if name not in obj.fields:
             raise Unsupported("unknown field %s" % name)
-        return Ref(lambda: obj.fields[name], lambda v: obj.fields.__setitem__(name, v))
+        def fget():
+            self.effects["reads"].add(("f", name))
+            return obj.fields[name]
+
+        def fset(v):
+            self.effects["writes"].add(("f", name))
+            obj.fields[name] = v
+        return Ref(fget, fset)
 
     def e_MemberExpr(self, n, fr):
         return self.lv(n, fr).get()
@@ -1028,6 +1046,21 @@ class Interp:
             return v
         if name == "operator()":
             callee = self.ev(n["inner"][1], fr)
+            # which generator feeds the draw: the object's own `rng` field, a global, or a local one (and its seed)
+            if len(n["inner"]) > 2:
+                g = self.strip(n["inner"][2])
+                gv = None
+                try:
+                    gv = self.ev(n["inner"][2], fr)
+                except Unsupported:
+                    pass
+                if g.get("kind") == "MemberExpr" and g.get("name") == "rng":
+                    src = ("field", "rng")
+                elif g.get("kind") == "DeclRefExpr" and g["referencedDecl"]["id"] in fr.locals:
+                    src = ("local", g["referencedDecl"].get("name"), gv.args[0] if isinstance(gv, Opaque) and gv.args else None)
+                else:
+                    src = ("other", g.get("kind"))
+                self.generators.append(src)
             return self.call_distribution(callee, n, fr)
         if name == "operator==":
             a = self.ev(n["inner"][1], fr)
